@@ -438,23 +438,31 @@ ThreadPool::~ThreadPool() {
   }
   threads_.clear();
 
-  // Drain central queue
-  while (tryExecuteNext()) {
-  }
-
-  // Drain all rings in the arena (including shadow entries)
-  for (size_t i = 0; i < rings_.size(); ++i) {
-    OnceFunction task;
-    while (rings_[i].try_pop(task)) {
-      task();
+  // Drain the central queue and all rings in the arena (including shadow entries).  A task run
+  // here may itself schedule more work to this pool, which lands in the central queue (or a ring)
+  // because numThreads_ is still non-zero, so keep draining until a full pass finds nothing;
+  // otherwise such children would be silently dropped.
+  bool ranAny;
+  do {
+    ranAny = false;
+    while (tryExecuteNext()) {
+      ranAny = true;
     }
-  }
-  for (size_t i = 0; i < stealRings_.size(); ++i) {
-    OnceFunction task;
-    while (stealRings_[i].try_pop(task)) {
-      task();
+    for (size_t i = 0; i < rings_.size(); ++i) {
+      OnceFunction task;
+      while (rings_[i].try_pop(task)) {
+        task();
+        ranAny = true;
+      }
     }
-  }
+    for (size_t i = 0; i < stealRings_.size(); ++i) {
+      OnceFunction task;
+      while (stealRings_[i].try_pop(task)) {
+        task();
+        ranAny = true;
+      }
+    }
+  } while (ranAny);
   // wakeState_ graveyard freed by RAII (vector destructor)
 }
 ThreadPool& globalThreadPool() {
